@@ -363,6 +363,25 @@ def dispatch_case(space, mode, option):
             c.oblige(P + "/state-is-the-redistribution-of-the-transposed-state-with-the-script-seed",
                      x0.arr == GSDf(T, M, S, seed))
         c.oblige(P + "/seed-forwarded", init_args.get("seed") == seed)
+        # every other argument reaches the parameter of the same name (argument order at the Init call site)
+        j0 = K._int(I, "j0", 0)
+        for nm, v in init_args.items():
+            src = {"t_samples": "sample_t"}.get(nm, nm)
+            if nm in ("mesh_x0", "mesh_chstt", "seed", "sampling_policy_code") or src not in vals:
+                continue
+            given = vals[src]
+            if isinstance(given, Ptr):
+                if not isinstance(v, Vec):
+                    c.oblige(P + "/forwarded/%s" % nm, z3.BoolVal(False))
+                    continue
+                c.oblige(P + "/forwarded/%s" % nm, z3.And(v.n == given.n, z3.Implies(j0 < given.n,
+                         z3.Select(v.arr, j0) == I.coerce(z3.Select(given.arr, j0), v.kind))))
+            elif z3.is_expr(given) and z3.is_expr(v):
+                c.oblige(P + "/forwarded/%s" % nm, I.coerce(v, "real") == I.coerce(given, "real"))
+        if space == "grid" and isinstance(init_args.get("boundary_conditions"), Vec):
+            b = init_args["boundary_conditions"]
+            c.oblige(P + "/forwarded/boundary_conditions (x, y, z order)",
+                     z3.And(b.n == 3, z3.Select(b.arr, 0) == 0, z3.Select(b.arr, 1) == 1, z3.Select(b.arr, 2) == 0))
 
     return Case(cid, run, functions=["engineexport_initialize_" + space], conc=False, max_paths=4000)
 
